@@ -62,7 +62,7 @@ func (ck *Checker) stubOverlay(scratch string, in *Instance) (map[string]string,
 				return nil
 			}
 			b, _ := os.ReadFile(p)
-			if bytes.Contains(b, []byte("time.Now()")) {
+			if bytes.Contains(b, []byte("time.Now()")) || bytes.Contains(b, []byte("time.Since(")) || bytes.Contains(b, []byte("time.Until(")) {
 				timeFiles[p] = true
 			}
 			return nil
@@ -165,6 +165,13 @@ func (ck *Checker) stubOverlay(scratch string, in *Instance) (map[string]string,
 				if call, ok := c.Node().(*ast.CallExpr); ok {
 					if sel, ok := call.Fun.(*ast.SelectorExpr); ok && sel.Sel.Name == "Now" {
 						if id, ok := sel.X.(*ast.Ident); ok && id.Name == "time" && len(call.Args) == 0 {
+							sel.X = ast.NewIdent("zzverif")
+							changed = true
+						}
+					}
+					// time.Since / time.Until read the wall clock inside package time: they follow the harness's clock too
+					if sel, ok := call.Fun.(*ast.SelectorExpr); ok && (sel.Sel.Name == "Since" || sel.Sel.Name == "Until") {
+						if id, ok := sel.X.(*ast.Ident); ok && id.Name == "time" && len(call.Args) == 1 {
 							sel.X = ast.NewIdent("zzverif")
 							changed = true
 						}
